@@ -95,7 +95,7 @@ def project_lim(impl):
     trace, summ = impl.split(" | ", 1)
     keep = []
     for t in trace.split():
-        if t.startswith("q0.") or t.startswith("snd."):
+        if t.startswith("q0.") or t.startswith("q0s.") or t.startswith("snd."):
             t = re.sub(r"^(q0\.res=ok):.*$", r"\1", t)
             t = re.sub(r"^(q0\.rr=ok):.*$", r"\1", t)
             t = re.sub(r"^(q0\.rt=trailers):.*$", r"\1", t)
@@ -115,17 +115,25 @@ class C10(Prop):
                   "poll_recv_trailers; serverResolve for the 431): a section h3 can decode at all is accepted under limit L "
                   "iff its RFC 9114 4.2.2 size <= L and otherwise refused with HeaderTooLong(n), L < n <= size, n never "
                   "wrapping (size <= 272*|block|); encode_stateless returns exactly the size and a send site refuses iff "
-                  "size > peerLimit, writing nothing; over-limit receive outcomes (431 attempted, refused 431 still "
+                  "size > peerLimit, writing nothing (send_request: the limit in force when its stream has been opened, "
+                  "whatever it was at the call; split leaves the receive half's limit unchanged); over-limit receive outcomes (431 attempted, refused 431 still "
                   "header-too-big, STOP_SENDING H3_REQUEST_CANCELLED on the client) never touch the connection error")
     level_note = ("trusted: Lean kernel + 3 standard axioms; the call-site decision functions are hand-written summaries of "
                   "the six Rust functions, tied by the connection-level scenario engine `lim` (real h3::server/h3::client "
-                  "over SimQuic, both roles, limits via builder and via peer SETTINGS delivered before/after the send) and "
+                  "over SimQuic, both roles, limits via builder and via peer SETTINGS delivered before/after the send, "
+                  "while send_request waits for stream credit, with the driver polled or not; both halves after split) and "
                   "the function-level engine `qpack`; HeaderMap iteration order and Header::{request,response,trailer} "
                   "field order observed, not proved (C12)")
     rule = ("cases: qpack dec for L in {0,1,41,42,43,small,2^62-1,2^64-1} x sections of 1..4 fields whose size sweeps "
             "L-2..L+2 by padding one value, in random representation forms, plus random L; lim for both roles x "
             "headers/trailers x receive/send x limit sweep x SETTINGS before/after/absent/without the parameter x the "
-            "431 boundary 41/42/43; non-trivial = implementation result is not bad-op; distinct = distinct case lines")
+            "431 boundary 41/42/43; the same receive and send sweeps after `split` (trailers/response sent from the send "
+            "half q0s, response/trailers received on the receive half, SETTINGS before the split / between split and send "
+            "/ after the send, bytes before / after the split); send_request pending on bidirectional stream credit "
+            "(bc=0 + gb<n>) with request sizes L-2..L+2 and the peer's SETTINGS applied before the call / while the call "
+            "is pending / after the request went out / never granted / without the parameter, each with the driver "
+            "polled before, between or only after (SETTINGS count as arrived once the driver has read them); "
+            "non-trivial = implementation result is not bad-op; distinct = distinct case lines")
     trusted = ["http::HeaderMap iteration order for distinct names (insertion order)",
                "SimQuic + scenario interpreter (harness/src/{sim,exec,scen}.rs)"]
     assumptions = ["usize is 64 bits", "a field list held in memory has size below 2^64 (u64 sum in encode_stateless)",
@@ -189,6 +197,17 @@ class C10(Prop):
                     if lim >= RESP_SIZE:
                         L.append("lim client %s drv.W %s s0:%s s0:%s f0 q0.rr q0.rt"
                                  % (cfg(lim, seed), client_pre(), hx(headers_frame(RESP_BLOCK)), trf))
+                    # ---- the same after `split`: the receive half (task q0) keeps the configured maximum
+                    #      (connection.rs `split`: the send half gets 0); bytes before / after the split
+                    rqf, rpf = hx(headers_frame(REQ_BLOCK)), hx(headers_frame(RESP_BLOCK))
+                    if lim >= REQ_SIZE:
+                        L.append("lim server %s conn.AL o0 s0:%s s0:%s f0 q0.res q0.sp q0.rt" % (cfg(lim, seed), rqf, trf))
+                        L.append("lim server %s conn.AL o0 s0:%s q0.res q0.sp s0:%s f0 q0.rt" % (cfg(lim, seed), rqf, trf))
+                    L.append("lim client %s drv.W %s q0.sp s0:%s q0.rr"
+                             % (cfg(lim, seed), client_pre(), hx(headers_frame(block(rs, rng)))))
+                    if lim >= RESP_SIZE:
+                        L.append("lim client %s drv.W %s q0.sp s0:%s s0:%s f0 q0.rr q0.rt" % (cfg(lim, seed), client_pre(), rpf, trf))
+                        L.append("lim client %s drv.W %s s0:%s q0.rr q0.sp s0:%s f0 q0.rt" % (cfg(lim, seed), client_pre(), rpf, trf))
             # ---- sending: request / response / trailers against the peer's limit;
             #      SETTINGS before the attempt, after it, never, or without the parameter
             c0 = cfg(None, seed)
@@ -221,6 +240,60 @@ class C10(Prop):
                             L.append("lim client %s drv.W snd.R:GET:%s:- %s" % (c0, URI, st))
                             L.append("%s %s" % (head, sr))
                             L.append("%s q0.sr:200:- %s" % (head, st))
+                        # ---- the same through the send half of a split stream (task q0s): what may be sent is
+                        #      the peer's limit in force at the send, split or not; SETTINGS before the split,
+                        #      between the split and the send ("mid"), after the send, never, without the parameter
+                        sts, srs = st.replace("q0.st", "q0s.st"), sr.replace("q0.sr", "q0s.sr")
+                        creq = "lim client %s drv.W" % c0
+                        rq0 = "snd.R:GET:%s:-" % URI
+                        if when in ("before", "noparam"):
+                            L.append("%s %s o3 s3:%s q0.sp %s" % (creq, rq0, cs, sts))
+                            L.append("%s %s q0.sp o3 s3:%s %s" % (creq, rq0, cs, sts))
+                            L.append("%s o2 s2:%s q0.sp %s" % (head, cs, srs))
+                            L.append("%s q0.sp o2 s2:%s %s" % (head, cs, srs))
+                            L.append("%s q0.sp q0s.sr:200:- o2 s2:%s %s" % (head, cs, sts))
+                            L.append("%s q0.sr:200:- o2 s2:%s q0.sp %s" % (head, cs, sts))
+                        elif when == "after":
+                            L.append("%s %s q0.sp %s o3 s3:%s" % (creq, rq0, sts, cs))
+                            L.append("%s q0.sp %s o2 s2:%s" % (head, srs, cs))
+                            L.append("%s q0.sp q0s.sr:200:- %s o2 s2:%s" % (head, sts, cs))
+                        else:
+                            L.append("%s %s q0.sp %s" % (creq, rq0, sts))
+                            L.append("%s q0.sp %s" % (head, srs))
+                            L.append("%s q0.sp q0s.sr:200:- %s" % (head, sts))
+                        # ---- client, driver not polled when the SETTINGS bytes come in: they count as arrived
+                        #      once the driver has read them (reading R-10)
+                        if when == "before":
+                            L.append("lim client %s o3 s3:%s %s drv.W" % (c0, cs, send))
+                            L.append("lim client %s o3 s3:%s drv.W %s" % (c0, cs, send))
+                            L.append("lim client %s %s o3 s3:%s %s drv.W" % (c0, rq0, cs, st))
+                            L.append("lim client %s %s o3 s3:%s drv.W %s" % (c0, rq0, cs, st))
+            # ---- send_request waiting for stream credit (cfg bc=0, grant gb1): `poll_open_bidi` is pending while
+            #      the peer's SETTINGS arrive; what counts is the limit in force when the request goes out
+            for lim in [0, 42, 100, 166, 167, 168, 206, 250, 1000, 2000, DEFAULT]:
+                sweep = 206 <= lim < 10**6
+                for d in (range(-2, 3) if sweep else [0]):
+                    rq = (pad_to(REQ_FIELDS, lim + d, b"x-pad") if sweep else None) or REQ_FIELDS
+                    R = "snd.R:GET:%s:%s" % (URI, hdrs_arg(rq))
+                    S = "o3 s3:%s" % hx(settings_chunk(lim))
+                    S0 = "o3 s3:%s" % hx(settings_chunk(None))
+                    cb = ",".join(x for x in ["bc=0", cfg(None, seed)] if x != "-")
+                    orders = ["drv.W %s %s gb1" % (S, R),        # SETTINGS applied before the call
+                              "%s drv.W %s gb1" % (S, R),
+                              "%s %s gb1 drv.W" % (S, R),        # delivered, never read before the send: default
+                              "drv.W %s %s gb1" % (R, S),        # while the call is pending, driver polled
+                              "%s %s drv.W gb1" % (R, S),        # … driver polled only after the bytes came in
+                              "%s %s gb1 drv.W" % (R, S),        # … driver not polled before the grant: default
+                              "drv.W %s gb1 %s" % (R, S),        # after the request went out
+                              "drv.W %s %s gb2" % (R, S)]
+                    if d == 0:
+                        orders += ["drv.W %s %s" % (R, S),       # never granted: nothing is sent
+                                   "drv.W %s %s gb1" % (R, S0),  # SETTINGS without the parameter while pending
+                                   "drv.W %s gb1" % R]
+                    for o in orders:
+                        L.append("lim client %s %s" % (cb, o))
+                    # credit available at once (bc=1): the plain path under a finite credit
+                    L.append("lim client %s drv.W %s %s" % (cb.replace("bc=0", "bc=1"), S, R))
 
     def cases(self, tier, rng):
         L = []
@@ -235,9 +308,10 @@ class C10(Prop):
         w = line.split()
         if w[0] == "lim":
             calls = [t.split("=")[0] + "=" + ("toobig" if "toobig" in t else t.split("=", 1)[1].split(":")[0])
-                     for t in impl.split(" | ")[0].split()]
+                     for t in impl.split(" | ")[0].split() if "=" in t]
             wire = "431" if "5f09836990ff" in impl else "-"
-            return "lim/%s/%s/%s" % (w[1], ",".join(calls[-2:]), wire)
+            fam = ("credit/" if "bc=" in w[2] else "") + ("split/" if "q0.sp" in w else "")
+            return "lim/%s/%s%s/%s" % (w[1], fam, ",".join(calls[-2:]) if calls else "pending", wire)
         r = impl.split(" ")
         kind = r[0] if r[0] != "err" else "err-" + r[1]
         return "qpack/%s/%s" % (w[1], kind)
